@@ -2,21 +2,21 @@ SPECIFICATION Spec
 CONSTANTS
   NV = 2
   StabV = {}
-  NP = 2
+  NP = 1
   UseQueue = TRUE
   SkipQueue = FALSE
-  Faults = FALSE
+  Faults = TRUE
   FaultKinds = {"crash", "reject", "third"}
-  MaxC = 9
+  MaxC = 8
   RepStatuses = {"SUCCESSFUL", "FAILED"}
-  Atomic = TRUE
+  Atomic = FALSE
   ReportFine = FALSE
   AutoApprove = TRUE
-  Opts = {"wait", "unwait"}
+  Opts = {}
   ReportOnce = TRUE
-  MaxLevel = 10
+  MaxLevel = 26
   EmitJson = FALSE
-  PruneOnlyOwned = FALSE
+  PruneOnlyOwned = TRUE
   PushOnlyChanged = FALSE
   AtomicPush = TRUE
   FixSelect = TRUE
